@@ -5,7 +5,8 @@ Trace == ndJsonDeserialize(IOEnv.VERIF_TRACE)
 FailSet(t) ==
    (IF C13_OK(t.cfg, t.input, t.obs) THEN {} ELSE {"C13"}) \cup
    (IF C15_OK(t.cfg, t.input, t.obs) THEN {} ELSE {"C15"}) \cup
-   (IF C19_OK(t.cfg, t.input, t.obs) THEN {} ELSE {"C19"})
+   (IF C19_OK(t.cfg, t.input, t.obs) THEN {} ELSE {"C19"}) \cup
+   (IF C11_OK(t.cfg, t.input, t.obs) THEN {} ELSE {"C11"})
 Verdict(t) == [case |-> t.case, fails |-> FailSet(t), drift |-> ~Conforms(t.input, ModelOut(t.cfg, t.input), t.obs)]
 Init == l = 1
 Next == /\ l <= Len(Trace)
